@@ -797,8 +797,121 @@ async fn connect_part(ctx: &Ctx, rng: &mut Rng) {
     }
 }
 
+/// Monitor 3: the handshake messages as such (the public message types both roles of a handshake are written with): what
+/// `encode` emits against an independent statement of the protocol's layouts, `decode` of that, and the digests.
+fn message_part(ctx: &Ctx, rng: &mut Rng) {
+    use edp_client::handshake::{Challenge, ChallengeAck, ChallengeReply, SendName, Status, StatusMessage};
+    let cookies = ["secret", "", "пароль", "a-much-longer-cookie-value-0123456789", " padded ", "line\n"];
+    let names: Vec<String> = vec!["a@b".into(), "rust@127.0.0.1".into(), "é@host".into(), "n".repeat(255), format!("{}@x", "ü".repeat(100)), "x".into()];
+    let framed = |body: &[u8]| {
+        let mut f = (body.len() as u16).to_be_bytes().to_vec();
+        f.extend_from_slice(body);
+        f
+    };
+    let differ = |ctx: &Ctx, what: &str, got: &[u8], want: &[u8]| {
+        if got != want {
+            ctx.viol(&format!("C04:message-layout:{}", what), "a handshake message does not have the byte layout the protocol prescribes", json!({"message": what, "emitted": hex_cap(got, 64), "protocol": hex_cap(want, 64)}));
+        }
+    };
+    for round in 0..ctx.pick(60usize, 3000usize) {
+        let flags = match round % 4 { 0 => 0, 1 => u64::MAX, 2 => DistributionFlags::default().as_u64(), _ => rng.next_u64() };
+        let creation = *rng.pick(&[0u32, 1, 3, 0x0a0b_0c0d, u32::MAX]);
+        let challenge = *rng.pick(&[0u32, 1, 0x7fff_ffff, 0x8000_0000, u32::MAX, 123_456_789]);
+        let name = rng.pick(&names).clone();
+        let cookie = *rng.pick(&cookies);
+        ctx.eval(6);
+        ctx.class(&format!("messages/flags{}/name{}", round % 4, if name.len() > 200 { "-long" } else if !name.is_ascii() { "-non-ascii" } else { "" }));
+        // name (new and old form)
+        let sn = SendName::new(DistributionFlags::new(flags), creation, name.clone());
+        let mut body = vec![b'N'];
+        body.extend_from_slice(&flags.to_be_bytes());
+        body.extend_from_slice(&creation.to_be_bytes());
+        body.extend_from_slice(&(name.len() as u16).to_be_bytes());
+        body.extend_from_slice(name.as_bytes());
+        match sn.encode() {
+            Ok(e) => {
+                differ(ctx, "name", &e, &framed(&body));
+                match SendName::decode(&body) {
+                    Ok(d) if d.flags.as_u64() == flags && d.creation == creation && d.name == name => {}
+                    other => ctx.viol("C04:message-decode:name", "a name message in the protocol's layout is not read back as its fields", json!({"result": format!("{:?}", other.map(|d| (d.flags.as_u64(), d.creation, d.name))).chars().take(200).collect::<String>()})),
+                }
+            }
+            Err(e) => ctx.viol("C04:message-encode-error:name", "a name message with a legal name cannot be encoded", json!({"error": e.to_string(), "name_len": name.len()})),
+        }
+        let mut old = vec![b'n', 0, 5];
+        old.extend_from_slice(&(flags as u32).to_be_bytes());
+        old.extend_from_slice(name.as_bytes());
+        if let Ok(e) = sn.encode_old() {
+            differ(ctx, "name-old-form", &e, &framed(&old));
+        }
+        // status
+        for (st, text) in [(Status::Ok, "ok"), (Status::OkSimultaneous, "ok_simultaneous"), (Status::Nok, "nok"), (Status::NotAllowed, "not_allowed"), (Status::Alive, "alive")] {
+            let mut b = vec![b's'];
+            b.extend_from_slice(text.as_bytes());
+            differ(ctx, &format!("status:{}", text), &StatusMessage::new(st).encode(), &framed(&b));
+            match StatusMessage::decode(&b) {
+                Ok(d) if d.status == st => {}
+                other => ctx.viol("C04:message-decode:status", "a status message in the protocol's layout is not read back as that status", json!({"status": text, "result": format!("{:?}", other.map(|d| d.status as u8))})),
+            }
+        }
+        // challenge
+        let mut cb = vec![b'N'];
+        cb.extend_from_slice(&flags.to_be_bytes());
+        cb.extend_from_slice(&challenge.to_be_bytes());
+        cb.extend_from_slice(&creation.to_be_bytes());
+        cb.extend_from_slice(&(name.len() as u16).to_be_bytes());
+        cb.extend_from_slice(name.as_bytes());
+        if let Ok(e) = Challenge::new(DistributionFlags::new(flags), challenge, creation, name.clone()).encode() {
+            differ(ctx, "challenge", &e, &framed(&cb));
+        }
+        match Challenge::decode(&cb) {
+            Ok(d) if d.flags.as_u64() == flags && d.challenge == challenge && d.creation == creation && d.name == name => {}
+            other => ctx.viol("C04:message-decode:challenge", "a challenge in the protocol's layout is not read back as its fields", json!({"result": format!("{:?}", other.map(|d| (d.flags.as_u64(), d.challenge, d.creation, d.name))).chars().take(200).collect::<String>()})),
+        }
+        // reply and ack: layout, digest, verification
+        let ours = rng.next_u32();
+        let want_digest = challenge_digest(cookie, challenge);
+        let reply = ChallengeReply::new(ours, challenge, cookie);
+        let mut rb = vec![b'r'];
+        rb.extend_from_slice(&ours.to_be_bytes());
+        rb.extend_from_slice(&want_digest);
+        differ(ctx, "reply", &reply.encode(), &framed(&rb));
+        let ack = ChallengeAck::new(challenge, cookie);
+        let mut ab = vec![b'a'];
+        ab.extend_from_slice(&want_digest);
+        differ(ctx, "ack", &ack.encode(), &framed(&ab));
+        let other_cookie = if cookie == "secret" { "Secret" } else { "secret" };
+        let mut verdicts: Vec<(&str, bool, bool)> = vec![
+            ("reply:right", reply.verify(challenge, cookie), true),
+            ("ack:right", ack.verify(challenge, cookie), true),
+            ("reply:other-challenge", reply.verify(challenge.wrapping_add(1), cookie), false),
+            ("ack:other-challenge", ack.verify(challenge ^ 0x8000_0000, cookie), false),
+            ("reply:other-cookie", reply.verify(challenge, other_cookie), false),
+            ("ack:other-cookie", ack.verify(challenge, other_cookie), false),
+        ];
+        let v = rng.below(24);
+        let bad = corrupt_digest(want_digest, v);
+        if bad != want_digest {
+            verdicts.push(("reply:corrupted-digest", ChallengeReply { challenge: ours, digest: bad }.verify(challenge, cookie), false));
+            verdicts.push(("ack:corrupted-digest", ChallengeAck { digest: bad }.verify(challenge, cookie), false));
+        }
+        match (ChallengeReply::decode(&rb), ChallengeAck::decode(&ab)) {
+            (Ok(r), Ok(a)) => {
+                verdicts.push(("reply:decoded", r.challenge == ours && r.verify(challenge, cookie), true));
+                verdicts.push(("ack:decoded", a.verify(challenge, cookie), true));
+            }
+            other => ctx.viol("C04:message-decode:reply-or-ack", "a reply / ack in the protocol's layout cannot be read", json!({"result": format!("{:?}", other).chars().take(200).collect::<String>()})),
+        }
+        for (what, got, want) in verdicts {
+            if got != want {
+                ctx.viol(&format!("C04:message-verify:{}", what), "verification of a digest gives the wrong answer", json!({"case": what, "verify": got, "expected": want, "cookie": cookie, "challenge": challenge, "corruption": v}));
+            }
+        }
+    }
+}
+
 pub fn run(ctx: &Ctx) {
-    ctx.rule("monitor 1: every sequence of length <= 3 (quick) / 4 (thorough) over 23 symbolic handshake-API actions (valid / stale-epoch / wrong / truncated / wrong-tag arguments) plus random sequences of length 5..12, five configurations (empty/long/non-ASCII cookies, names of 1..256 bytes, all-ones/zero/random flags, challenge 0 and 2^32-1), checked online against a shadow of the handshake epoch; monitor 2: Connection::connect against a scripted peer over loopback + fake EPMD for 29 peer behaviours (silence at and inside every step, truncated / oversized / old-format messages, 24 digest corruptions, garbage statuses, frames of length zero before each step and as a flood) x flag sets; evaluations = API calls / connect attempts judged; distinct = distinct action sequences (hash) and (deviation, flag set) pairs");
+    ctx.rule("monitor 1: every sequence of length <= 3 (quick) / 4 (thorough) over 23 symbolic handshake-API actions (valid / stale-epoch / wrong / truncated / wrong-tag arguments) plus random sequences of length 5..12, five configurations (empty/long/non-ASCII cookies, names of 1..256 bytes, all-ones/zero/random flags, challenge 0 and 2^32-1), checked online against a shadow of the handshake epoch; monitor 2: Connection::connect against a scripted peer over loopback + fake EPMD for 29 peer behaviours (silence at and inside every step, truncated / oversized / old-format messages, 24 digest corruptions, garbage statuses, frames of length zero before each step and as a flood) x flag sets; monitor 3: the public handshake message types (name in both forms, status, challenge, reply, ack): what encode emits against the protocol's layouts, decode of those bytes, digests against an own MD5 and verify() on right, foreign and corrupted digests; evaluations = API calls / connect attempts judged; distinct = distinct action sequences (hash) and (deviation, flag set) pairs");
     ctx.assume("digest of a non-ASCII cookie is taken over its UTF-8 bytes (the property does not fix the byte encoding); timing: a silent peer must be noticed within timeout + max(1 s, timeout), measured from the peer's silence; later but before the 15 s watchdog = inconclusive");
     if !selfcheck() {
         ctx.inconclusive("MD5 self-check (RFC 1321 vectors) failed: harness broken");
@@ -806,6 +919,7 @@ pub fn run(ctx: &Ctx) {
     }
     let mut rng = Rng::derive(ctx.seed, 4, 1);
     state_machine_part(ctx, &mut rng);
+    message_part(ctx, &mut rng);
     let rt = tokio::runtime::Builder::new_current_thread().enable_all().build().expect("runtime");
     rt.block_on(connect_part(ctx, &mut rng));
 }
